@@ -11,8 +11,8 @@ EXTENDS DistCore, TLC
 CONSTANTS R, S, Deviations
 VARIABLE grid
 N == R * S
-Perms == {p \in [1..N -> 0..(N - 1)] : \A i, j \in 1..N : i # j => p[i] # p[j]}
-GridOf(p) == [i \in 1..R |-> [c \in 1..S |-> p[(i - 1) * S + c]]]
+Perms == Permutations(0..(N - 1))                      \* TLC!Permutations: bijections of 0..N-1
+GridOf(p) == [i \in 1..R |-> [c \in 1..S |-> p[(i - 1) * S + c - 1]]]
 Init == grid \in {GridOf(p) : p \in Perms}
 Next == UNCHANGED grid
 Spec == Init /\ [][Next]_grid
